@@ -67,6 +67,8 @@ def stims_of(out, kind, tag, marker="BEH"):
     for s in tlc_prints(out, marker):
         b = json.loads(s)
         res.append({"kind": kind, "id": "%s:%d" % (tag, len(res)), "nr": 2, "pin": b["pin"], "progs": b["progs"], "script": b["script"]})
+        if len(res) % 3 == 0:     # the same behaviour with the object created by a thread pinned to a region
+            res[-1]["cpin"] = (len(res) // 3) % 2
     return res
 
 
@@ -99,6 +101,8 @@ def random_stim(rng, i):
           "seed": rng.randrange(1 << 30)}
     if rng.random() < 0.4:
         st["pct"] = rng.choice([1, 2, 3, 4])
+    if rng.random() < 0.4:
+        st["cpin"] = rng.randrange(nr)
     return st
 
 
